@@ -7,14 +7,16 @@
 namespace util {
 
 template <> struct ToStringBuf<double> {
-  // DoubleToStringConverter::kBase10MaximalLength + 1 for null paranoia.
-  static const unsigned kBytes = 19;
+  // Longest output of ToShortest with decimal range [-6, 21): sign, "0.", five
+  // zeros and DoubleToStringConverter::kBase10MaximalLength = 17 digits, as in
+  // -0.0000012345678901234567, is 25 characters; StringBuilder appends a null.
+  static const unsigned kBytes = 26;
 };
 
 // Single wasn't documented in double conversion, so be conservative and
 // say the same as double.
 template <> struct ToStringBuf<float> {
-  static const unsigned kBytes = 19;
+  static const unsigned kBytes = 26;
 };
 
 char *ToString(double value, char *to);
